@@ -2007,3 +2007,39 @@ def batches_cover_all_rows(ctx, rule):
                'the batches stop at something other than the row count of '
                'the query: the last (partial) batch of completed tasks is '
                'not read', ctx.loc(f))
+
+
+def admin_context_lists_all_projects(ctx, rule):
+    """pause / stop / cancel / resume cascade over the sub-workflows found
+    with db_api.get_workflow_executions(task_execution_id=...): when an
+    administrator operates on an execution of another project, those rows
+    belong to that project and are only found because `_get_collection`
+    turns the query insecure for an admin context.  Decided: the flag that
+    selects the unscoped query may come from `context.ctx().is_admin`
+    (reaching definitions), under the has_ctx() test only."""
+    prog = ctx.prog
+    f = prog.func('mistral.db.v2.sqlalchemy.api._get_collection')
+    cfg = ctx.cfg(f)
+    uses = [n for n in cfg.nodes if n.kind in ('stmt', 'test') and any(
+        isinstance(x, ast.IfExp) and norm(x.test) == 'insecure' or
+        (n.kind == 'test' and norm(n.ast) == 'insecure')
+        for x in ast.walk(n.ast))]
+    if not uses:
+        raise AnalysisError('_get_collection: choice of the query by '
+                            '`insecure` not found')
+    rd = U.reaching_defs(cfg, 'insecure').get(uses[0].id, set())
+    adm = [d for d in rd if not isinstance(d, str) and
+           'is_admin' in norm(d) and 'insecure' in norm(d)]
+    rule.check(bool(adm) and 'param' in rd,
+               ctx.construct(f, extra='admin context widens the listing'),
+               'the collection getter no longer lists the rows of all '
+               'projects for an admin context: a cascade run by an '
+               'administrator on another project\'s execution finds no '
+               'sub-workflows', ctx.loc(f))
+    for d in adm:
+        n = cfg.node_of(d)
+        facts = [(norm(a), t) for a, t in U.guard_atoms(cfg, n)]
+        rule.check(facts == [('context.has_ctx()', True)],
+                   ctx.construct(f, extra='whenever there is a context'),
+                   'the admin override is additionally conditioned: %s'
+                   % facts, ctx.loc(f))
